@@ -8,7 +8,9 @@ import runner
 def write(prop, spec, tier, seed, outcome, wall, partial=False):
     runner.EVIDENCE.mkdir(exist_ok=True)
     results = [r for r in outcome.results if r is not None]
-    ok = [r for r in results if r.status == "ok"]
+    # witnesses of recorded findings are expected to fail: they are reported, not obligations
+    obligations = [r for r in results if not r.job.expect_fail]
+    ok = [r for r in obligations if r.status == "ok"]
     cover_set = set()
     for r in ok:
         for c in r.cover_names:
@@ -56,7 +58,8 @@ def write(prop, spec, tier, seed, outcome, wall, partial=False):
         "functions_encoded": spec.get("functions", []),
         "bounds": spec.get("bounds", {}).get(tier, ""),
         "outside_bounds": spec.get("outside", ""),
-        "queries_total": len(results) + outcome.extra_queries,
+        "queries_total": len(obligations) + outcome.extra_queries,
+        "known_finding_witness_queries": len(results) - len(obligations),
         "queries_discharged": n_ok,
         "queries_skipped_optional": [r.job.name for r in results if r.job.optional and r.status != "ok"],
         "solver_time_s": round(sum(r.solver_s for r in results) + outcome.extra_solver_s, 2),
@@ -70,7 +73,7 @@ def write(prop, spec, tier, seed, outcome, wall, partial=False):
     if level == "proof":
         coverage.update(
             {
-                "obligations": len(results) + outcome.extra_queries,
+                "obligations": len(obligations) + outcome.extra_queries,
                 "discharged": n_ok,
                 "checker_cmd": f"./check {prop} --tier {tier}",
                 "trusted_base": spec.get("trusted", []),
